@@ -104,6 +104,17 @@ func c16ECDSA(t *vk.T, rounds int) {
 		if pz, err := ref.LiftX(ref.Q); err == nil {
 			ps = append(ps, pert{"r=0(x=q)", pz, s, dig, X})
 		}
+		// identity nonce point (r = 0), with ordinary and with zero-mapping digests
+		zeroDigs := [][]byte{dig, make([]byte, 32), make([]byte, len(dig)), ref.Q.Bytes(), {0}}
+		for _, zd := range zeroDigs {
+			ps = append(ps, pert{"R-identity", ref.Infinity(), s, zd, X})
+		}
+		ps = append(ps, pert{"valid-on-zero-digest", R, s, dig, X}) // placeholder replaced below
+		{
+			zd := make([]byte, 32)
+			Rz, sz := ref.ECDSASign(d, zd, k)
+			ps[len(ps)-1] = pert{"valid-on-zero-digest", Rz, sz, zd, X}
+		}
 		for _, p := range ps {
 			sm := new(big.Int).Mod(p.s, ref.Q)
 			want := ref.ECDSAVerifyPoint(p.X, p.dig, p.R, sm)
